@@ -21,7 +21,8 @@ pub fn units(tier: &str, seed: u64) -> Vec<String> {
     }
     v.push(unit(&[("shape", shapes[0]), ("n", "1"), ("fs", "CAN"), ("k", "sym"), ("a", "sym"), ("j", "-2"), ("what", "energy"), ("lm", "1"), ("scale", "1")]));
     // auxiliaries shared by very small outputs (a heat pump that barely runs in summer)
-    v.push(unit(&[("shape", "1/U:CAL:ELECTRICIDAD;1/U:ACS:ELECTRICIDAD;1/X;1/~O:CAL;1/~O:ACS"), ("n", "1"), ("fs", "PEN"), ("k", "sym"), ("a", "sym"), ("j", "-6"), ("what", "energy"), ("scale", "1"), ("dom", "0.002:100")]));
+    // (two steps: a step's output mix must be able to differ from the annual one)
+    v.push(unit(&[("shape", "1/~U:CAL:ELECTRICIDAD;1/~U:ACS:ELECTRICIDAD;1/~X;1/~O:CAL;1/~O:ACS"), ("n", "2"), ("fs", "PEN"), ("k", "sym"), ("a", "sym"), ("j", "-6"), ("what", "energy"), ("scale", "1"), ("dom", "0.002:100"), ("bud", "90")]));
     // the building's demands (absolute and per m2) under a change of area
     v.push(unit(&[("shape", "1/U:ACS:ELECTRICIDAD;1/U:ACS:EAMBIENTE;U:CAL:GASNATURAL;D:ACS;D:CAL;D:REF"), ("n", "1"), ("fs", "PEN"), ("k", "sym"), ("a", "sym"), ("j", "2"), ("what", "area"), ("scale", "1")]));
     // down to fractions of a Wh, with load matching: no absolute magnitude may matter
